@@ -21,7 +21,7 @@ Definition url_eqb (a b : url) : bool :=
 
 Definition smsg_kind (m : smsg) : Z :=
   match m with
-  | MCreateTenant _ _ _ => 0 | MCreateTenantMC _ _ _ => 1 | MAddAdmin _ _ _ => 2 | MRemoveAdmin _ _ _ => 3
+  | MCreateTenant _ _ _ => 0 | MCreateTenantMC _ _ _ _ _ => 1 | MAddAdmin _ _ _ => 2 | MRemoveAdmin _ _ _ => 3
   | MUpdatePeriod _ _ _ => 4 | MDeposit _ _ _ _ => 5 | MRecord _ _ _ _ _ _ _ _ => 6 | MCancel _ _ _ => 7
   end.
 Definition omsg_kind (m : omsg) : Z :=
@@ -161,7 +161,7 @@ Definition leaves_list (ms : list tmsg) : list leaf := concat (map leaves ms).
 Definition leaf_signer (l : leaf) : option Z :=
   match l with
   | LSettle m => Some (match m with
-                       | MCreateTenant s _ _ | MCreateTenantMC s _ _ | MAddAdmin s _ _ | MRemoveAdmin s _ _
+                       | MCreateTenant s _ _ | MCreateTenantMC s _ _ _ _ | MAddAdmin s _ _ | MRemoveAdmin s _ _
                        | MUpdatePeriod s _ _ | MDeposit s _ _ _ | MRecord s _ _ _ _ _ _ _ | MCancel s _ _ => s
                        end)
   | LOracle (MPrevote f _ _ _) | LOracle (MVote f _ _ _ _) => Some f
